@@ -397,10 +397,16 @@ def main_check(engine, tier, verif_seed, wall_cap=None, workers=None):
                 part_viol.append((p["name"], v))
 
     reported = []
-    for (cls, site), lst in list(groups.items())[:5]:
+    seen_min = set()
+    for (cls, site), lst in list(groups.items())[:12]:
+        if len(reported) >= 5:
+            break
         rec, v = lst[0]
-        path = report_violation(engine, rec, v, len(lst))
-        reported.append({"cls": cls, "site": site, "count": len(lst), "replay": path, "detail": v["detail"][:500]})
+        out = report_violation(engine, rec, v, len(lst), seen_min)
+        if out is None:
+            continue  # minimised to a (class, site) that has been reported already
+        path, mcls, msite = out
+        reported.append({"cls": mcls, "site": msite, "count": len(lst), "replay": path, "detail": v["detail"][:500]})
     for pname, v in part_viol[:5]:
         path = v.get("replay")
         if not path:
@@ -497,17 +503,18 @@ def _json_default(o):
     return str(o)
 
 
-def report_violation(engine, rec, v, count):
+def report_violation(engine, rec, v, count, seen_min=None):
     """Minimise, write replay file, verify in a fresh interpreter, print."""
     prop = engine.prop
     cls, site = v["cls"], v["site"]
+    same = getattr(engine, "same_violation", None) or (lambda x, c, s: x["cls"] == c and x["site"] == s)
 
     def still_fails(values):
         try:
             r = run_one(engine, values=values)
         except BaseException:  # noqa: BLE001
             return False
-        return any(x["cls"] == cls and x["site"] == site for x in r["violations"])
+        return any(same(x, cls, site) for x in r["violations"])
 
     t_end = time.time() + 120
     values = rec["tape"]
@@ -516,7 +523,13 @@ def report_violation(engine, rec, v, count):
     else:
         mini = values  # not reproducible in-process: will be caught below
     r = run_one(engine, values=mini)
-    vv = [x for x in r["violations"] if x["cls"] == cls and x["site"] == site]
+    vv = [x for x in r["violations"] if same(x, cls, site)]
+    if vv:
+        cls, site = vv[0]["cls"], vv[0]["site"]  # the option mix may have shrunk
+    if seen_min is not None:
+        if (cls, site) in seen_min:
+            return None
+        seen_min.add((cls, site))
     path = os.path.join(REPLAY_DIR, f"{prop}-{rec['sub_seed']}.json")
     doc = {
         "property": prop,
@@ -541,7 +554,7 @@ def report_violation(engine, rec, v, count):
     print(f"[{prop}] class={cls} site={site} runs_affected>={count} tape {len(rec['tape'])}->{len(mini)} values")
     print(f"[{prop}] {doc['detail'][:800]}")
     print(f"VIOLATION property={prop} replay={path}", flush=True)
-    return path
+    return path, cls, site
 
 
 def main_replay(engine, path):
